@@ -13,24 +13,37 @@ package checks
 //     must be the state at a block boundary (looked up by the frontier hash the snapshot itself reports);
 //     run under the Go race detector;
 // (d) a producing pillar races sync inserting a competing momentum at the same height; afterwards the
-//     node's chain must replay from genesis to the same state on a fresh node.
+//     node's chain must replay from genesis to the same state on a fresh node;
+// (f) race:subscribe:* cases: the real subscribe server (rpc/api/subscribe) is registered on the chain of a real node
+//     and served by a real in-process RPC server; in-process RPC clients subscribe to all four subscription kinds,
+//     unsubscribe, close their connection or just stay, in PRNG-determined patterns, while the node keeps inserting
+//     account blocks and momentums (own pillar or sync, with some rollbacks). Under -race; functional oracle: every
+//     subscription's stream is a contiguous run of the sequence of inserted momentums (filtered by the kind), the
+//     subscribers that stay for the whole run miss nothing, and whatever is notified is readable from the chain when
+//     the notification arrives.
 
 import (
 	"bytes"
+	"context"
+	"encoding/json"
 	"fmt"
 	"math/big"
 	"math/rand"
 	"os"
 	"runtime"
 	"sort"
+	"strings"
 	"sync"
 	"sync/atomic"
+	"time"
 
 	g "github.com/zenon-network/go-zenon/chain/genesis/mock"
 	"github.com/zenon-network/go-zenon/chain"
 	"github.com/zenon-network/go-zenon/chain/nom"
 	"github.com/zenon-network/go-zenon/common/db"
 	"github.com/zenon-network/go-zenon/common/types"
+	"github.com/zenon-network/go-zenon/rpc/api/subscribe"
+	rpcsrv "github.com/zenon-network/go-zenon/rpc/server"
 	"github.com/zenon-network/go-zenon/wallet"
 
 	"verif/harness/fw"
@@ -43,7 +56,10 @@ func init() {
 		Level: "exploration",
 		Rule: "model:* cases run seeded sequences of pool operations (insert, competing insert at the same height with engineered plasma ratios and hash ties, replacement chains, forced insert, momentum insert confirming pooled or competing blocks, rollback) " +
 			"on a real node against a sequential model; content:* cases build pools of >100 blocks with contract batches; race:* cases run readers against the inserting goroutine and a producing pillar against sync under -race; " +
-			"distinct_nontrivial counts distinct (operation, model outcome) pairs, distinct content shapes and distinct interleaving outcomes",
+			"race:subscribe:* cases start the real subscribe server on the node's chain behind a real in-process RPC server and let RPC clients subscribe to all four kinds, unsubscribe, close the connection or stay (PRNG patterns, paced by the writer's operation count) " +
+			"while the node inserts account blocks and momentums (even cases: own pillar, odd cases: sync through the chain bridge) and is rolled back now and then; every subscription's stream must be a contiguous run of the inserted momentums (filtered by kind), " +
+			"permanent subscribers must cover the whole run, and every notified item must be readable from the chain on arrival unless a rollback that began before the read removed it; " +
+			"distinct_nontrivial counts distinct (operation, model outcome) pairs, distinct content shapes, distinct interleaving outcomes and distinct (inserting path, subscription kind, way of leaving) with at least one notification",
 		Cases:            c14Cases,
 		Run:              c14Run,
 		MinDistinct:      12,
@@ -53,6 +69,8 @@ func init() {
 			"on real nodes contract accounts are checked structurally; the pool component is additionally driven directly (api:* cases) with synthetic single blocks and contract batches",
 			"api:* cases compete only with single-block candidates at transaction boundaries and never for an account's very first block (a batch as competitor and height-1 replacement are refused by the implementation: unreachable for contracts on a node, not exercised)",
 			"the producer-vs-sync interleaving is not forced by a hook: both orders are observed over many repetitions and counted",
+			"race:subscribe:* demand only what the subscribe server promises by design: FIFO delivery per subscription between its (asynchronous) installation and removal, so the first and last notification of a subscription are not tied to the subscribe/unsubscribe calls; the writer keeps at most 16 momentums outstanding at the permanent subscribers so that the server's documented drop (event channel of 100 full) cannot occur; a descendant block listed twice inside one allAccountBlocks notification (as content entry and as descendant of its receive block) is counted, not judged",
+			"a race-detector report makes the -race child exit with status 66 after its last case: besides the data-race signature the framework then also reports that case as node-crash unknown-frame",
 		},
 	})
 }
@@ -82,6 +100,13 @@ func c14Cases(tier string, seed int64) []string {
 	}
 	for i := 0; i < nr; i++ {
 		l = append(l, fmt.Sprintf("race:replace:%d", i))
+	}
+	ns := 4
+	if tier == "thorough" {
+		ns = 64
+	}
+	for i := 0; i < ns; i++ {
+		l = append(l, fmt.Sprintf("race:subscribe:%d", i))
 	}
 	return l
 }
@@ -236,6 +261,8 @@ func c14Run(c *fw.C, caseID string) {
 		c14ProducerVsSync(c, caseID)
 	case scan1(caseID, "race:replace:%d", &idx):
 		c14Replace(c, caseID)
+	case scan1(caseID, "race:subscribe:%d", &idx):
+		c14Subscribe(c, caseID, idx)
 	}
 }
 
@@ -1319,5 +1346,884 @@ func c14Api(c *fw.C, caseID string) {
 		if !compare("op") {
 			return
 		}
+	}
+}
+
+// ---- (f) the subscription side: subscribe server + in-process RPC clients vs the inserting goroutine ---------
+//
+// What the server promises by design (rpc/api/subscribe): the chain calls Server.InsertMomentum on the inserting
+// goroutine after the momentum was applied; the event is handed to ONE event-loop goroutine through FIFO channels
+// (capacity 100, an event is dropped only when a channel is full) and broadcast to every installed subscription of
+// the kind; installation happens asynchronously in the same loop (so the first and the last event a subscription sees
+// are not determined by the subscribe / unsubscribe calls), rollbacks are not announced. The oracle therefore demands:
+//   * every subscription's stream is a CONTIGUOUS RUN of the sequence of momentums inserted into the node (for the
+//     account-block kinds: of the per-momentum sets of confirmed blocks, filtered by the kind's rule, empty sets
+//     skipped) — no loss inside the run, no duplicate, no reordering, nothing that was never inserted;
+//   * a subscription that is installed before the run and removed after it covers the whole run;
+//   * what a notification names is readable from the chain (momentum by hash with that height / confirmed account
+//     block by hash with that height and address) when the notification arrives, unless it was rolled back by then.
+// The writer never lets more than c14sWindow momentums be outstanding at the permanent subscribers, so that the
+// server's by-design drop (channel full) cannot occur.
+
+const (
+	c14sMomentums = iota
+	c14sAll
+	c14sByAddress
+	c14sUnreceived
+)
+
+const c14sWindow = 16
+
+var c14sKindNames = []string{"momentums", "allAccountBlocks", "accountBlocksByAddress", "unreceivedAccountBlocksByAddress"}
+
+type c14sMom struct {
+	Hash   types.Hash `json:"hash"`
+	Height uint64     `json:"height"`
+}
+
+type c14sBlock struct {
+	BlockType uint64        `json:"blockType"`
+	Hash      types.Hash    `json:"hash"`
+	Height    uint64        `json:"height"`
+	Address   types.Address `json:"address"`
+	ToAddress types.Address `json:"toAddress"`
+	FromHash  types.Hash    `json:"fromHash"`
+}
+
+type c14sNote struct {
+	moms   []c14sMom
+	blocks []c14sBlock
+}
+
+// one InsertMomentum event on the observed node, as booked by the writer from the chain right after the insert
+type c14sEntry struct {
+	mom          c14sMom
+	blocks       []c14sBlock
+	live         bool
+	rolledBackAt int64 // logical clock at the start of the rollback that removed it (0: never)
+}
+
+type c14sPending struct {
+	what   string
+	hash   types.Hash
+	height uint64
+	tr     int64
+}
+
+type c14sSub struct {
+	kind      int
+	addr      types.Address
+	ch        chan json.RawMessage
+	cs        *rpcsrv.ClientSubscription
+	permanent bool
+	end       string
+	mu        sync.Mutex
+	got       []c14sNote
+}
+
+func (s *c14sSub) count() int {
+	s.mu.Lock()
+	defer s.mu.Unlock()
+	return len(s.got)
+}
+
+// lastHas: the newest notification of the subscription is the one for the given momentum / marker block
+func (s *c14sSub) lastHas(mom, marker types.Hash) bool {
+	s.mu.Lock()
+	defer s.mu.Unlock()
+	if len(s.got) == 0 {
+		return false
+	}
+	n := s.got[len(s.got)-1]
+	for _, m := range n.moms {
+		if m.Hash == mom {
+			return true
+		}
+	}
+	for _, b := range n.blocks {
+		if b.Hash == marker {
+			return true
+		}
+	}
+	return false
+}
+
+type c14sWorld struct {
+	c     *fw.C
+	T     *simnet.Node
+	clock int64
+	fails int32
+
+	mu       sync.Mutex
+	log      []*c14sEntry
+	pending  []c14sPending
+	finished []*c14sSub
+	stay     []*c14sSub
+	stats    map[string]int
+	inconcl  string
+	found    int64
+}
+
+func (w *c14sWorld) report(sig string, d interface{}) {
+	if atomic.AddInt32(&w.fails, 1) == 1 {
+		w.c.Violation(sig, d)
+	}
+}
+
+func (w *c14sWorld) stat(name string, n int) {
+	w.mu.Lock()
+	w.stats[name] += n
+	w.mu.Unlock()
+}
+
+func (w *c14sWorld) giveUp(why string) {
+	w.mu.Lock()
+	if w.inconcl == "" {
+		w.inconcl = why
+	}
+	w.mu.Unlock()
+	atomic.AddInt32(&w.fails, 1)
+}
+
+func c14sOpen(cl *rpcsrv.Client, kind int, addr types.Address) (*c14sSub, error) {
+	s := &c14sSub{kind: kind, addr: addr, ch: make(chan json.RawMessage, 4096)}
+	ctx, cancel := context.WithTimeout(context.Background(), 3*time.Minute)
+	defer cancel()
+	var err error
+	if kind == c14sMomentums || kind == c14sAll {
+		s.cs, err = cl.Subscribe(ctx, "ledger", s.ch, c14sKindNames[kind])
+	} else {
+		s.cs, err = cl.Subscribe(ctx, "ledger", s.ch, c14sKindNames[kind], addr)
+	}
+	return s, err
+}
+
+// take decodes one notification, reads what it names from the chain right away and keeps it for the stream oracle.
+func (w *c14sWorld) take(s *c14sSub, raw json.RawMessage) {
+	var n c14sNote
+	var err error
+	if s.kind == c14sMomentums {
+		err = json.Unmarshal(raw, &n.moms)
+		if err == nil && len(n.moms) != 1 {
+			err = fmt.Errorf("%d momentums in one notification", len(n.moms))
+		}
+	} else {
+		err = json.Unmarshal(raw, &n.blocks)
+		if err == nil && len(n.blocks) == 0 {
+			err = fmt.Errorf("empty list of account blocks")
+		}
+	}
+	if err != nil {
+		text := string(raw)
+		if len(text) > 300 {
+			text = text[:300]
+		}
+		w.report("subscription-notification-malformed "+c14sKindNames[s.kind], map[string]interface{}{"error": err.Error(), "notification": text})
+		return
+	}
+	st := w.T.Chain.GetFrontierMomentumStore()
+	for _, m := range n.moms {
+		cm, _ := st.GetMomentumByHash(m.Hash)
+		tr := atomic.AddInt64(&w.clock, 1)
+		switch {
+		case cm == nil:
+			w.mu.Lock()
+			w.pending = append(w.pending, c14sPending{"momentum", m.Hash, m.Height, tr})
+			w.mu.Unlock()
+		case cm.Height != m.Height:
+			w.report("notified-momentum-height-differs-from-chain", map[string]interface{}{"notified_height": m.Height, "chain_height": cm.Height})
+		default:
+			atomic.AddInt64(&w.found, 1)
+		}
+	}
+	for _, b := range n.blocks {
+		cb, _ := st.GetAccountBlockByHash(b.Hash)
+		var conf uint64
+		if cb != nil {
+			conf, _ = st.GetBlockConfirmationHeight(b.Hash)
+		}
+		tr := atomic.AddInt64(&w.clock, 1)
+		switch {
+		case cb == nil || conf == 0:
+			w.mu.Lock()
+			w.pending = append(w.pending, c14sPending{"account-block", b.Hash, b.Height, tr})
+			w.mu.Unlock()
+		case cb.Height != b.Height || cb.Address != b.Address:
+			w.report("notified-account-block-differs-from-chain", map[string]interface{}{"notified_height": b.Height, "chain_height": cb.Height,
+				"notified_address": b.Address.String(), "chain_address": cb.Address.String()})
+		default:
+			atomic.AddInt64(&w.found, 1)
+		}
+	}
+	s.mu.Lock()
+	s.got = append(s.got, n)
+	s.mu.Unlock()
+}
+
+func (w *c14sWorld) drain(s *c14sSub) {
+	for {
+		select {
+		case raw := <-s.ch:
+			w.take(s, raw)
+		default:
+			return
+		}
+	}
+}
+
+// book appends the momentums at heights [from, to] of the observed node to the log of insert events.
+func (w *c14sWorld) book(from, to uint64) bool {
+	st := w.T.Chain.GetFrontierMomentumStore()
+	for h := from; h <= to; h++ {
+		m, err := st.GetMomentumByHeight(h)
+		if err != nil || m == nil {
+			w.giveUp(fmt.Sprintf("cannot read back the inserted momentum at height %d: %v", h, err))
+			return false
+		}
+		e := &c14sEntry{mom: c14sMom{m.Hash, m.Height}, live: true}
+		for _, hd := range m.Content {
+			b, err := st.GetAccountBlockByHash(hd.Hash)
+			if err != nil || b == nil {
+				w.giveUp(fmt.Sprintf("cannot read back a block confirmed by the momentum at height %d: %v", h, err))
+				return false
+			}
+			e.blocks = append(e.blocks, c14sBlock{BlockType: b.BlockType, Hash: b.Hash, Height: b.Height, Address: b.Address, ToAddress: b.ToAddress, FromHash: b.FromBlockHash})
+		}
+		w.mu.Lock()
+		w.log = append(w.log, e)
+		w.mu.Unlock()
+	}
+	return true
+}
+
+// expected: the sequence a subscription of the kind is owed for the whole log (keys) and the log index of every key
+func (w *c14sWorld) expected(kind int, addr types.Address) (keys []string, at []int) {
+	for i, e := range w.log {
+		if kind == c14sMomentums {
+			keys = append(keys, fmt.Sprintf("%s/%d", e.mom.Hash, e.mom.Height))
+			at = append(at, i)
+			continue
+		}
+		var hs []string
+		for _, b := range e.blocks {
+			switch kind {
+			case c14sByAddress:
+				if b.Address != addr {
+					continue
+				}
+			case c14sUnreceived:
+				if (b.BlockType != nom.BlockTypeUserSend && b.BlockType != nom.BlockTypeContractSend) || b.ToAddress != addr {
+					continue
+				}
+			}
+			hs = append(hs, b.Hash.String())
+		}
+		if len(hs) == 0 {
+			continue
+		}
+		sort.Strings(hs)
+		keys = append(keys, strings.Join(hs, ","))
+		at = append(at, i)
+	}
+	return
+}
+
+func c14sRunStart(exp, got []string, suffixOnly bool) int {
+	if len(got) > len(exp) {
+		return -1
+	}
+	lo, hi := 0, len(exp)-len(got)
+	if suffixOnly {
+		lo = hi
+	}
+	for p := lo; p <= hi; p++ {
+		ok := true
+		for j := range got {
+			if exp[p+j] != got[j] {
+				ok = false
+				break
+			}
+		}
+		if ok {
+			return p
+		}
+	}
+	return -1
+}
+
+// c14sClassify names the first way in which a stream fails to be a contiguous run (label of the signature only). A key
+// can occur more than once in the log (a momentum that was rolled back and synced again): all positions the stream
+// can be at are followed.
+func c14sClassify(exp, got []string) (string, int) {
+	pos := map[string][]int{}
+	for i, k := range exp {
+		pos[k] = append(pos[k], i)
+	}
+	var at []int
+	for j, k := range got {
+		ps := pos[k]
+		if len(ps) == 0 {
+			return "notification-for-content-never-inserted", j
+		}
+		if j == 0 {
+			at = ps
+			continue
+		}
+		var next []int
+		for _, p := range at {
+			if p+1 < len(exp) && exp[p+1] == k {
+				next = append(next, p+1)
+			}
+		}
+		if len(next) > 0 {
+			at = next
+			continue
+		}
+		if k == got[j-1] {
+			return "duplicated-notification", j
+		}
+		for _, p := range at {
+			for _, q := range ps {
+				if q > p+1 {
+					return "lost-notification", j
+				}
+			}
+		}
+		return "reordered-notification", j
+	}
+	return "not-a-contiguous-run", 0
+}
+
+// judge: the stream oracle for one finished subscription (called after everything has stopped); mainFrom is the log
+// index from which a permanent subscription must have seen everything.
+func (w *c14sWorld) judge(s *c14sSub, byHash map[types.Hash]c14sBlock, mainFrom int, seen map[string]bool) {
+	c := w.c
+	kind := c14sKindNames[s.kind]
+	exp, at := w.expected(s.kind, s.addr)
+	var got []string
+	repeated := 0
+	for _, n := range s.got {
+		if s.kind == c14sMomentums {
+			got = append(got, fmt.Sprintf("%s/%d", n.moms[0].Hash, n.moms[0].Height))
+			continue
+		}
+		set := map[string]bool{}
+		for _, b := range n.blocks {
+			if set[b.Hash.String()] {
+				repeated++
+			}
+			set[b.Hash.String()] = true
+			if want, ok := byHash[b.Hash]; ok {
+				field := ""
+				switch {
+				case want.Height != b.Height:
+					field = "height"
+				case want.Address != b.Address:
+					field = "address"
+				case want.ToAddress != b.ToAddress:
+					field = "toAddress"
+				case want.BlockType != b.BlockType:
+					field = "blockType"
+				case want.FromHash != b.FromHash:
+					field = "fromHash"
+				}
+				if sig := "notified-account-block-field-differs-from-chain " + field; field != "" && !seen[sig] {
+					seen[sig] = true
+					c.Violation(sig, map[string]interface{}{"subscription": kind, "notified": b, "chain": want})
+				}
+			}
+		}
+		var hs []string
+		for h := range set {
+			hs = append(hs, h)
+		}
+		sort.Strings(hs)
+		got = append(got, strings.Join(hs, ","))
+	}
+	c.Eval(len(got))
+	if repeated > 0 {
+		c.Count("subscribe_block_entries_repeated_within_one_notification", repeated)
+	}
+	fail := func(label string, at int) {
+		sig := "subscription-stream " + kind + " " + label
+		if seen[sig] {
+			return
+		}
+		seen[sig] = true
+		c.Violation(sig, map[string]interface{}{"subscription": kind, "address": s.addr.String(), "permanent": s.permanent, "ended_by": s.end,
+			"notifications_received": len(got), "notifications_owed_for_the_whole_log": len(exp), "first_offending_notification": at,
+			"note": "the stream of a subscription must be a contiguous run of the sequence of inserted momentums (filtered by the kind)"})
+	}
+	if len(got) == 0 {
+		if s.permanent {
+			fail("permanent-subscriber-missed-notifications", 0)
+		}
+		return
+	}
+	p := c14sRunStart(exp, got, s.permanent)
+	if p < 0 && s.permanent && c14sRunStart(exp, got, false) >= 0 {
+		fail("permanent-subscriber-missed-notifications", len(got))
+		return
+	}
+	if p < 0 {
+		label, j := c14sClassify(exp, got)
+		fail(label, j)
+		return
+	}
+	if s.permanent && at[p] > mainFrom {
+		// installed before the run, yet the first notification it has is a later one
+		for i := range at {
+			if at[i] >= mainFrom {
+				if i < p {
+					fail("permanent-subscriber-missed-notifications", 0)
+				}
+				break
+			}
+		}
+	}
+}
+
+func c14Subscribe(c *fw.C, caseID string, idx int) {
+	t0 := time.Now() // for the child log only
+	r := c.Rand(caseID)
+	base := c.ScratchDir("c14s")
+	defer os.RemoveAll(base)
+	via := "own-pillar"
+	if idx%2 == 1 {
+		via = "sync"
+	}
+	N := simnet.Open("N", base+"/N", simnet.MockGenesis(), g.PillarKeys)
+	defer N.Stop()
+	T := N // the node whose chain the subscribe server listens to
+	if via == "sync" {
+		F := simnet.Open("F", base+"/F", simnet.MockGenesis(), g.PillarKeys)
+		defer F.Stop()
+		T = F
+	}
+	N.MustProduce(3)
+	if T != N {
+		if err := T.SyncFrom(N, 10); err != nil {
+			c.Violation("sync-failed", err.Error())
+			return
+		}
+	}
+	w := &c14sWorld{c: c, T: T, stats: map[string]int{}}
+
+	// the server is a process-wide singleton: Stop() below clears it for the next case of this child
+	srv := subscribe.GetSubscribeServer(T.Chain)
+	if err := srv.Init(); err != nil {
+		c.Inconclusive("subscribe server Init: " + err.Error())
+		return
+	}
+	if err := srv.Start(); err != nil {
+		c.Inconclusive("subscribe server Start: " + err.Error())
+		return
+	}
+	rs := rpcsrv.NewServer()
+	regErr := rs.RegisterName("ledger", subscribe.GetSubscribeApi())
+
+	var cmu sync.Mutex
+	var clients []*rpcsrv.Client
+	dial := func() *rpcsrv.Client {
+		cl := rpcsrv.DialInProc(rs)
+		cmu.Lock()
+		clients = append(clients, cl)
+		cmu.Unlock()
+		w.stat("subscribe_connections_dialed", 1)
+		return cl
+	}
+	stop := make(chan struct{})
+	var stopOnce sync.Once
+	var wg, cwg sync.WaitGroup
+	quit := make(chan struct{})
+	var quitOnce sync.Once
+	defer func() {
+		stopOnce.Do(func() { close(stop) })
+		wg.Wait()
+		quitOnce.Do(func() { close(quit) })
+		cwg.Wait()
+		cmu.Lock()
+		for _, cl := range clients {
+			cl.Close()
+		}
+		cmu.Unlock()
+		rs.Stop()
+		_ = srv.Stop()
+		w.mu.Lock()
+		why := w.inconcl
+		w.mu.Unlock()
+		if why != "" {
+			c.Inconclusive(caseID + ": " + why)
+		}
+	}()
+	if regErr != nil {
+		w.giveUp("cannot register the subscribe api: " + regErr.Error())
+		return
+	}
+
+	A, B := g.Pillar7, g.Pillar8 // marker traffic A -> B: accounts the random workload does not use
+	addrs := []types.Address{A.Address, B.Address, g.User1.Address, g.User2.Address, g.User3.Address, types.TokenContract, types.PlasmaContract}
+
+	// permanent subscribers: one of every kind, on one connection, each with a consumer goroutine that reads the chain
+	// at the moment a notification arrives
+	pc := dial()
+	var perm []*c14sSub
+	for kind, addr := range []types.Address{{}, {}, A.Address, B.Address} {
+		s, err := c14sOpen(pc, kind, addr)
+		if err != nil {
+			w.giveUp("subscribe call failed: " + err.Error())
+			return
+		}
+		s.permanent, s.end = true, "unsubscribe-after-the-run"
+		perm = append(perm, s)
+		cwg.Add(1)
+		go func() {
+			defer cwg.Done()
+			for {
+				select {
+				case raw := <-s.ch:
+					w.take(s, raw)
+				case <-quit:
+					w.drain(s)
+					return
+				}
+			}
+		}()
+	}
+
+	var tick int64
+	wl := simnet.NewWorkload(rand.New(rand.NewSource(r.Int63())), N)
+	marker := func() (types.Hash, bool) {
+		b, err := N.Send(A, B.Address, types.ZnnTokenStandard, big.NewInt(1), nil)
+		atomic.AddInt64(&tick, 1)
+		if err != nil {
+			w.giveUp("cannot create the marker block: " + err.Error())
+			return types.Hash{}, false
+		}
+		return b.Hash, true
+	}
+	inserted := 0
+	// step: k momentums by N's pillar; in sync mode the observed node then gets them (and whatever a rollback took
+	// from it) through the chain bridge in batches of 1..3
+	step := func(k int) bool {
+		before := T.Height()
+		for j := 0; j < k; j++ {
+			if _, err := N.Produce(0); err != nil {
+				w.report("producer-cannot-produce", err.Error())
+				return false
+			}
+			atomic.AddInt64(&tick, 1)
+		}
+		if T != N {
+			if err := T.SyncFrom(N, 1+r.Intn(3)); err != nil {
+				w.report("follower-refuses-producers-momentum", err.Error())
+				return false
+			}
+		}
+		after := T.Height()
+		inserted += int(after - before)
+		return w.book(before+1, after)
+	}
+	last := func() *c14sEntry {
+		w.mu.Lock()
+		defer w.mu.Unlock()
+		return w.log[len(w.log)-1]
+	}
+	caughtUp := func(mh types.Hash, millis int) bool {
+		e := last()
+		for i := 0; i < millis; i++ {
+			all := true
+			for _, s := range perm {
+				if !s.lastHas(e.mom.Hash, mh) {
+					all = false
+					break
+				}
+			}
+			if all {
+				return true
+			}
+			time.Sleep(time.Millisecond)
+		}
+		return false
+	}
+	// warm-up: installation is asynchronous; insert marker momentums until every permanent subscriber is up to date
+	warm := false
+	for round := 0; round < 12 && !warm; round++ {
+		mh, ok := marker()
+		if !ok || !step(1) {
+			return
+		}
+		warm = caughtUp(mh, 3000)
+	}
+	if !warm {
+		w.giveUp("the permanent subscribers did not get a notification during the warm-up")
+		return
+	}
+	mainFrom := len(w.log)
+	nonEmpty := func() int {
+		n := 0
+		for _, e := range w.log {
+			if len(e.blocks) > 0 {
+				n++
+			}
+		}
+		return n
+	}
+	baseM, n0M := len(w.log), perm[c14sMomentums].count()
+	baseB, n0B := nonEmpty(), perm[c14sAll].count()
+	throttle := func() bool {
+		for i := 0; ; i++ {
+			outM := (len(w.log) - baseM) - (perm[c14sMomentums].count() - n0M)
+			outB := (nonEmpty() - baseB) - (perm[c14sAll].count() - n0B)
+			if outM <= c14sWindow && outB <= c14sWindow {
+				return true
+			}
+			if atomic.LoadInt32(&w.fails) != 0 {
+				return false
+			}
+			if i > 600000 {
+				w.giveUp("the permanent subscribers fell behind the inserting goroutine and did not recover")
+				return false
+			}
+			time.Sleep(100 * time.Microsecond)
+		}
+	}
+
+	// clients that come and go
+	shared := dial()
+	for gi := 0; gi < 4; gi++ {
+		rr := rand.New(rand.NewSource(r.Int63()))
+		wg.Add(1)
+		go func() {
+			defer wg.Done()
+			stopped := func() bool {
+				select {
+				case <-stop:
+					return true
+				default:
+					return false
+				}
+			}
+			var cl *rpcsrv.Client
+			stays := 0
+			for cycles := int64(0); !stopped() && atomic.LoadInt32(&w.fails) == 0; cycles++ {
+				// pace: a bounded number of subscriptions per writer operation
+				for cycles >= 3*(atomic.LoadInt64(&tick)+1) && !stopped() {
+					time.Sleep(200 * time.Microsecond)
+				}
+				if stopped() {
+					break
+				}
+				if cl == nil {
+					cl = dial()
+				}
+				use, own := cl, true
+				if rr.Intn(4) == 0 {
+					use, own = shared, false
+				}
+				kind := rr.Intn(4)
+				s, err := c14sOpen(use, kind, addrs[rr.Intn(len(addrs))])
+				if err != nil {
+					w.giveUp("subscribe call failed: " + err.Error())
+					return
+				}
+				// stay for up to `dwell` notifications, but no longer than `patience` writer operations
+				dwell := rr.Intn(4)
+				if dwell == 3 {
+					dwell = 2 + rr.Intn(6)
+				}
+				leaveAt := atomic.LoadInt64(&tick) + int64(1+rr.Intn(10))
+				for i := 0; i < dwell && atomic.LoadInt64(&tick) < leaveAt && !stopped(); {
+					select {
+					case raw := <-s.ch:
+						w.take(s, raw)
+						i++
+					default:
+						time.Sleep(200 * time.Microsecond)
+					}
+				}
+				switch e := rr.Intn(10); {
+				case e < 5:
+					s.end = "unsubscribe"
+				case e < 8 && own:
+					s.end = "close-connection"
+				case e == 9 && own && stays < 3:
+					s.end = "stay-until-the-end"
+				default:
+					s.end = "unsubscribe"
+				}
+				w.stat("subscribe_cycles "+c14sKindNames[kind]+" "+s.end, 1)
+				switch s.end {
+				case "unsubscribe":
+					s.cs.Unsubscribe()
+				case "close-connection":
+					cl.Close()
+					cl = nil
+				case "stay-until-the-end":
+					stays++
+					cl = nil // the connection stays with the subscription
+					w.mu.Lock()
+					w.stay = append(w.stay, s)
+					w.mu.Unlock()
+					continue
+				}
+				w.drain(s)
+				if len(s.got) > 0 {
+					w.mu.Lock()
+					w.finished = append(w.finished, s)
+					w.mu.Unlock()
+				}
+			}
+		}()
+	}
+
+	// the inserting goroutine
+	steps := 30
+	rollbacks := 0
+	floor := T.Height() + 2
+	for i := 0; i < steps && atomic.LoadInt32(&w.fails) == 0; i++ {
+		for j, nb := 0, 1+r.Intn(3); j < nb; j++ {
+			wl.One()
+			atomic.AddInt64(&tick, 1)
+		}
+		if r.Intn(2) == 0 {
+			if _, ok := marker(); !ok {
+				return
+			}
+		}
+		if r.Intn(3) == 0 {
+			if hs := wl.Unreceived(B.Address, 2); len(hs) > 0 {
+				_, _ = N.Receive(B, hs[0])
+				atomic.AddInt64(&tick, 1)
+			}
+		}
+		k := 1
+		if T != N {
+			k = 1 + r.Intn(3)
+		}
+		if !step(k) || !throttle() {
+			return
+		}
+		if r.Intn(7) == 0 && T.Height() > floor+2 {
+			// rollback of the observed node (not announced to subscribers); own-pillar: the next momentums are new ones,
+			// sync: the same momentums come again
+			target := T.Height() - uint64(1+r.Intn(2))
+			pm, err := T.Chain.GetFrontierMomentumStore().GetMomentumByHeight(target)
+			if err != nil || pm == nil {
+				continue
+			}
+			s := atomic.AddInt64(&w.clock, 1)
+			ins := T.Chain.AcquireInsert("c14 subscribe rollback")
+			err = T.Chain.RollbackTo(ins, pm.Identifier())
+			ins.Unlock()
+			if err != nil {
+				w.report("rollback-error", err.Error())
+				return
+			}
+			w.mu.Lock()
+			for _, e := range w.log {
+				if e.live && e.mom.Height > target {
+					e.live, e.rolledBackAt = false, s
+				}
+			}
+			w.mu.Unlock()
+			rollbacks++
+			atomic.AddInt64(&tick, 1)
+		}
+	}
+	duringChurn := inserted
+	stopOnce.Do(func() { close(stop) })
+	wg.Wait()
+	if atomic.LoadInt32(&w.fails) != 0 {
+		return
+	}
+	// two more marker momentums: a notification lost at the end of the run shows as a gap before them
+	var mh types.Hash
+	for k := 0; k < 2; k++ {
+		var ok bool
+		if mh, ok = marker(); !ok || !step(1) {
+			return
+		}
+	}
+	// (watchdog only: if the very last notification does not arrive the streams are still judged for gaps, and the case
+	// is inconclusive when none is found)
+	tailMissing := !caughtUp(mh, 30000)
+	for _, s := range append(append([]*c14sSub{}, perm...), w.stay...) {
+		s.cs.Unsubscribe()
+	}
+	quitOnce.Do(func() { close(quit) })
+	cwg.Wait()
+	for _, s := range w.stay {
+		w.drain(s)
+	}
+	if atomic.LoadInt32(&w.fails) != 0 {
+		return
+	}
+
+	// ---- judgement (everything has stopped) ----
+	byHash := map[types.Hash]c14sBlock{}
+	for _, e := range w.log {
+		for _, b := range e.blocks {
+			byHash[b.Hash] = b
+		}
+	}
+	seen := map[string]bool{}
+	deferred := 0
+	for _, p := range w.pending {
+		ok := false
+		for _, e := range w.log {
+			has := p.what == "momentum" && e.mom.Hash == p.hash && e.mom.Height == p.height
+			if p.what == "account-block" {
+				for _, b := range e.blocks {
+					has = has || b.Hash == p.hash
+				}
+			}
+			if has && e.rolledBackAt != 0 && e.rolledBackAt <= p.tr {
+				ok = true
+			}
+		}
+		if ok {
+			deferred++
+			continue
+		}
+		if sig := "notified-" + p.what + "-not-readable-from-chain-on-arrival"; !seen[sig] {
+			seen[sig] = true
+			c.Violation(sig, map[string]interface{}{"height": p.height, "hash": p.hash.String(), "read_returned_at": p.tr, "rollbacks": rollbacks,
+				"note": "the momentum store had no such entry when the notification arrived, and no rollback that began before the read removed it"})
+		}
+	}
+	c.Eval(int(w.found) + len(w.pending))
+	streams, notes := 0, 0
+	for _, s := range append(append(append([]*c14sSub{}, perm...), w.stay...), w.finished...) {
+		if tailMissing {
+			s.permanent = false
+		}
+		w.judge(s, byHash, mainFrom, seen)
+		streams++
+		notes += len(s.got)
+		if len(s.got) > 0 {
+			c.Distinct(fmt.Sprintf("subscribe/%s/%s/%s", via, c14sKindNames[s.kind], s.end))
+		}
+	}
+	for name, n := range w.stats {
+		c.Count(name, n)
+		if strings.HasPrefix(name, "subscribe_cycles ") {
+			c.SetAdd("subscribe_kind_and_ending_exercised", strings.TrimPrefix(name, "subscribe_cycles "))
+		}
+	}
+	c.SetAdd("subscribe_inserting_path", via)
+	c.Count("subscribe_momentums_inserted_while_clients_come_and_go", duringChurn)
+	c.Count("subscribe_rollbacks_of_the_observed_node", rollbacks)
+	c.Count("subscribe_streams_judged", streams)
+	c.Count("subscribe_notifications_received", notes)
+	c.Count("subscribe_notified_items_found_in_chain_on_arrival", int(w.found))
+	c.Count("subscribe_notified_items_already_rolled_back_on_arrival", deferred)
+	c.Count("subscribe_permanent_subscriber_notifications", perm[0].count()+perm[1].count()+perm[2].count()+perm[3].count())
+	if tailMissing && len(seen) == 0 {
+		w.giveUp("the permanent subscribers did not get the notification for the last momentum")
+	}
+	c.Logf("%s: %d momentums, %d streams, %d notifications, %v", caseID, len(w.log), streams, notes, time.Since(t0))
+	if idx == 0 {
+		c.Sample(map[string]interface{}{"case": caseID, "inserting_path": via, "momentums_in_log": len(w.log), "streams": streams, "notifications": notes, "rollbacks": rollbacks})
 	}
 }
